@@ -463,6 +463,10 @@ def calculate_structure_function(phase, nbOfPoint=None, step=None):
         Returns:
             ndarray, float: values for the structure function of the data.
     '''
+    # integer data (counts, quantised commands) would wrap around in the
+    # differences and squares below
+    if phase.dtype.kind in "iub":
+        phase = phase.astype(float)
     # the lags are shifts along the first dimension
     if nbOfPoint is None:
         nbOfPoint = phase.shape[0] / 4
